@@ -29,11 +29,15 @@ def _part_labels(cell):
     return (getattr(cell.row, 'label', None), getattr(cell.col, 'label', None))
 
 
+DEBUG_DEFAULT = [False]
+
+
 class Env(object):
     """A parser plus the host side: variables, cell/range tables, custom functions, event log."""
 
-    def __init__(self, vars=None, cells=None, ranges=None, funcs=None, debug=False, record=False):
-        self.P = hot().Parser(debug=debug)
+    def __init__(self, vars=None, cells=None, ranges=None, funcs=None, debug=None, record=False):
+        # debug not stated by the check: the runner's per-case default (on for a quarter of the cases; it must not change any outcome)
+        self.P = hot().Parser(debug=DEBUG_DEFAULT[0] if debug is None else debug)
         self.cells = dict((norm_label(k), v) for k, v in (cells or {}).items())
         self.ranges = dict((norm_label(k), v) for k, v in (ranges or {}).items())
         self.log = []
@@ -83,7 +87,7 @@ class Env(object):
         return self.P.parse(text)
 
 
-def ev(text, vars=None, cells=None, ranges=None, funcs=None, debug=False):
+def ev(text, vars=None, cells=None, ranges=None, funcs=None, debug=None):
     return Env(vars=vars, cells=cells, ranges=ranges, funcs=funcs, debug=debug).parse(text)
 
 
@@ -94,14 +98,19 @@ def plain_parser():
     """A shared binding-free parser for laws whose formulas are self-contained
     (a fresh one every 2000 uses so that hidden state cannot build up unnoticed)."""
     global _PLAIN
-    if _PLAIN is None or _PLAIN[1] > 2000:
-        _PLAIN = [hot().Parser(), 0]
+    dbg = bool(DEBUG_DEFAULT[0])
+    if _PLAIN is None or _PLAIN[1] > 2000 or _PLAIN[2] != dbg:
+        _PLAIN = [hot().Parser(debug=dbg), 0, dbg]
     _PLAIN[1] += 1
     return _PLAIN[0]
 
 
 def pev(text):
-    return plain_parser().parse(text)
+    P = plain_parser()
+    if P.debug:
+        with contextlib.redirect_stderr(io.StringIO()):
+            return P.parse(text)
+    return P.parse(text)
 
 
 # ---------------------------------------------------------------- literals
